@@ -170,6 +170,17 @@ def rule_ctor(ctx):
         elif any(d.endswith(".setter") for d in decs):
             tg = [unparse(t) for n in ast.walk(fn) if isinstance(n, ast.Assign) for t in n.targets if is_self_attr(t)]
             ctx.check("C19.ctor", tg == ["self._" + name], w, "setter " + name, "setter `%s` must assign self._%s (assigns %s)" % (name, name, tg), "assigns self._%s" % name)
+    # every instance attribute ANY method of the Config hierarchy sets is exported by vars() and fed back to the constructor
+    # by keyword: an attribute that is not a constructor parameter (a cache, a dirty flag) becomes an unknown key on load
+    allowed = {"_" + p for p in ps} | {"_version"}
+    for k in repo.mro(cls):
+        for name, fn in sorted(k.methods.items()):
+            for n in ast.walk(fn):
+                tg = n.targets if isinstance(n, ast.Assign) else ([n.target] if isinstance(n, (ast.AugAssign, ast.AnnAssign)) else [])
+                for t in tg:
+                    if is_self_attr(t) and t.attr not in allowed:
+                        ctx.violate("C19.ctor", where(k.relpath, "%s.%s" % (k.name, name), n.lineno), n,
+                                    "the instance attribute %s is not a constructor parameter: once it holds a value it is written to the config file as the key %r and every later load fails with an unexpected keyword (or it silently changes the file)" % (t.attr, t.attr.lstrip("_")))
     # object -> dict uses vars(); dict -> object uses cls(**data)
     cd = repo.cls(TDIR + "config_dict.py", "ConfigDictTransform")
     t, r = cd.methods.get("transform"), cd.methods.get("reverse")
@@ -374,6 +385,26 @@ def rule_atomic_dir(ctx):
             ctx.check("C19.atomic", closed, where(TOOLS, "StorageTools.writeProfileData", good[0].lineno), good[0],
                       "the temporary file is renamed over the profile file while it is still open: its buffered content has not been written, so a crash right after the rename leaves an empty or partial config",
                       "renamed after the temporary file was closed")
+    # who-may-write: the only way library code saves a configuration is save(profile, config[, type]) -> the atomic profile
+    # path above; the `dest=` form of save truncates its target in place (an export for tools), and nothing else opens a
+    # file under the profile directory for writing
+    n_sites = 0
+    for m in sorted(repo.modules.values(), key=lambda m: m.relpath):
+        if "/demos/" in m.relpath or "/test_" in m.relpath or m.relpath in (MGR, TOOLS):
+            continue
+        for fnode in [x for x in ast.walk(m.tree) if isinstance(x, ast.FunctionDef)]:
+            uses_profile_dir = bool(calls_named(fnode, "getStorageForProfile"))
+            for c in ast.walk(fnode):
+                if not isinstance(c, ast.Call):
+                    continue
+                if isinstance(c.func, ast.Attribute) and c.func.attr == "save" and (any(k.arg == "dest" for k in c.keywords) or len(c.args) >= 4) and ("onfig" in unparse(c.func.value) or uses_profile_dir):
+                    n_sites += 1
+                    ctx.violate("C19.atomic", where(m.relpath, fnode.name, c.lineno), c,
+                                "library code saves a configuration through save(..., dest=...): that branch opens the destination with a truncating mode, so a crash during the write leaves an empty or partial config file in place of the old one")
+                if isinstance(c.func, ast.Name) and c.func.id == "open" and uses_profile_dir and any(ch in mo for mo in (mode_of(Evaluator(repo, m, None), c) or ["?"]) for ch in "wax+"):
+                    n_sites += 1
+                    ctx.violate("C19.atomic", where(m.relpath, fnode.name, c.lineno), c, "a file in the profile directory is opened for writing outside StorageTools.writeProfileData (no temp file + rename)")
+    ctx.hold("C19.atomic", where(MGR, "ConfigManager.save", save.lineno), "only the profile path writes configs from library code", "no library call of save(dest=...) and no direct write into the profile directory") if not n_sites else None
     # ---- C19.dir : abstract path algebra
     # paths are tuples of symbolic components; ensured = set of directories known to exist
     cp = repo.method(TOOLS, "StorageTools", "constructPath")
